@@ -92,6 +92,15 @@ def _six(p, v=(0.0, 0.0, 0.0)):
 # =====================================================================================
 # 1. Lattice3: exact oracle for the helpers
 # =====================================================================================
+def _guarded(V: Viol, tag: str, st: dict, fn) -> None:
+    """Evaluate one lattice state; an exception raised while evaluating the real helpers is a violation, not a crash."""
+    try:
+        fn(st)
+    except Exception as ex:  # noqa: BLE001
+        V.add(f"lattice-helper-raises:{tag}", f"a real helper raises {type(ex).__name__} on the {tag} lattice point {st}",
+              {"part": "lattice", "tag": tag, "state": st, "error": repr(ex)})
+
+
 def replay_lattice(ctx: Ctx, res, V: Viol) -> None:
     from resonaate.physics import maths as M
     from resonaate.physics.bodies import Earth
@@ -103,7 +112,8 @@ def replay_lattice(ctx: Ctx, res, V: Viol) -> None:
     n = 0
     skew_seen = set()
     with np.errstate(all="ignore"):
-        for st in res.tagged("VEC"):
+        def one_vec(st):
+            nonlocal n
             w, v = np.array(st["w"], float), np.array(st["v"], float)
             exp_cross = np.array(st["cross"], float)
             n += 1
@@ -141,8 +151,11 @@ def replay_lattice(ctx: Ctx, res, V: Viol) -> None:
                 if not _close(got, exp):
                     V.add("eci2rsw-axes", "eci2rsw does not project the relative state on (R, S, W)",
                           {"part": "lattice", "r": st["w"], "v": st["v"], "got": got.tolist(), "expected": exp.tolist()})
+        for st in res.tagged("VEC"):
+            _guarded(V, "VEC", st, one_vec)
 
-        for st in res.tagged("ROT"):
+        def one_rot(st):
+            nonlocal n
             i, a, b = st["axis"], st["qa"] * math.pi / 2, st["qb"] * math.pi / 2
             n += 1
             ctx.case(("rot", i, st["qa"], st["qb"]), nontrivial=st["qa"] % 4 != 0, sample=st if st["qa"] == 3 and st["qb"] == 2 and i == 2 else None)
@@ -157,8 +170,11 @@ def replay_lattice(ctx: Ctx, res, V: Viol) -> None:
             if bad:
                 V.add(f"rot{i}-{bad[0]}", f"rot{i} at quarter turns ({st['qa']}, {st['qb']}): {bad[0]} differs from the integer oracle",
                       {"part": "lattice", "axis": i, "qa": st["qa"], "qb": st["qb"], "got": np.asarray(bad[1]).tolist(), "expected": bad[2]})
+        for st in res.tagged("ROT"):
+            _guarded(V, "ROT", st, one_rot)
 
-        for st in res.tagged("DOT"):
+        def one_dot(st):
+            nonlocal n
             i, a, w = st["axis"], st["q"] * math.pi / 2, np.array(st["w"], float)
             n += 1
             ctx.case(("dot", i, st["q"], tuple(st["w"])), nontrivial=bool(w.any()))
@@ -166,10 +182,13 @@ def replay_lattice(ctx: Ctx, res, V: Viol) -> None:
             if not _close(got, st["m"]):
                 V.add(f"dotRot{i}-value", f"dotRot{i}(q*90deg, w) differs from rot{i}.[w]x (documented derivative)",
                       {"part": "lattice", "axis": i, "q": st["q"], "w": st["w"], "got": np.asarray(got).tolist(), "expected": st["m"]})
+        for st in res.tagged("DOT"):
+            _guarded(V, "DOT", st, one_dot)
 
         a_eq = Earth.radius
         b_pol = Earth.radius * math.sqrt(1.0 - Earth.eccentricity ** 2)
-        for st in res.tagged("SITE"):
+        def one_site(st):
+            nonlocal n
             lat, lon = st["ql"] * math.pi / 2, st["qn"] * math.pi / 2
             n += 1
             ctx.case(("site", st["ql"], st["qn"]), sample=st if (st["ql"], st["qn"]) == (0, 1) else None)
@@ -196,8 +215,11 @@ def replay_lattice(ctx: Ctx, res, V: Viol) -> None:
                 if not (abs(lla[0] - lat) <= 1e-9 and abs(lla[2] - h) <= 1e-6 and (st["ql"] != 0 or abs(dl) <= 1e-12)):
                     V.add("ecef2lla-axis-point", "ecef2lla of a point on an axis of the ellipsoid is not (lat, lon, h)",
                           {"part": "lattice", "ql": st["ql"], "qn": st["qn"], "h": h, "got": np.asarray(lla).tolist(), "expected": [lat, lon, h]})
+        for st in res.tagged("SITE"):
+            _guarded(V, "SITE", st, one_site)
 
-        for st in res.tagged("LOOK"):
+        def one_look(st):
+            nonlocal n
             d = np.array(st["dir"], float)
             n += 1
             ctx.case(("look", st["azq"], st["elq"]))
@@ -213,6 +235,9 @@ def replay_lattice(ctx: Ctx, res, V: Viol) -> None:
                 if not _close(back[:3], rng * d, 1e-12 * rng):
                     V.add("razel2sez-convention", "razel2sez does not put azimuth 0 to the north (-S) and 90 deg to the east",
                           {"part": "lattice", "azq": st["azq"], "elq": st["elq"], "got": back.tolist(), "expected": (rng * d).tolist()})
+        for st in res.tagged("LOOK"):
+            _guarded(V, "LOOK", st, one_look)
+
     # the emission must be the complete lattice (guards against a truncated TLC output)
     nw = len(skew_seen)
     nt = len({st["qa"] for st in res.tagged("ROT")})
@@ -311,6 +336,7 @@ class Walker:
         self.abs_src = {"ecef2sez", "eci2sez", "eci2rsw", "eci2ntw"}
         self._z6 = z6
         self.max_geo_err = 0.0
+        self.where = "walk"
 
     # ---- context -----------------------------------------------------------------
     def context(self, when: datetime, site_lla, ref):
@@ -388,9 +414,12 @@ class Walker:
         """
         fails = []
         frame = w["start"]
+        self.where = "walk"
         cur = [np.asarray(p, dtype=float) for p in pts]
         start_canon = [self.canon(frame, p) for p in cur]
-        scale = self.scale(c, [s for s in start_canon])
+        # size of the problem, from the INPUTS only (start point, site, reference): every absolute vector is at most this
+        # long and every relative one at most twice; outputs of the real code never widen the tolerances
+        scale = 2.0 * self.scale(c, [s for s in start_canon])
         if any(self.singular(frame, p) for p in cur):
             return "singular", fails
         vel_decided = True
@@ -402,6 +431,7 @@ class Walker:
             for k, fn in enumerate(w["walk"]):
                 e = self.edge[fn]
                 f = self.ex[fn]
+                self.where = fn
                 if fn == "eci2radec" and any(self.degenerate("ECI", p, c) for p in cur):
                     return "singular", fails          # passes through RAZEL internally
                 try:
@@ -416,16 +446,19 @@ class Walker:
                         return "singular", fails
                     fails.append(("nonfinite", fn, {"step": k}))
                     return "ok", fails
-                scale = max(scale, self.scale(c, [self.canon(e["dst"], p) for p in nxt]))
                 if any(self.singular(e["dst"], p) for p in nxt):
                     return "singular", fails
+                big = max(float(np.linalg.norm(self.canon(e["dst"], p)[:3])) for p in nxt)
+                if not big <= 100.0 * scale:
+                    fails.append(("absurd", fn, {"step": k, "norm_km": big, "scale_km": scale}))
+                    return "ok", fails
                 if fn in ("ecef2lla", "eci2lla"):
                     xs_ecef = [p_in if fn == "ecef2lla" else self.T.eci2ecef(p_in, c.date) for p_in in cur]
                     if any(self.near_axis(x) for x in xs_ecef):
                         return "singular", fails
                     for x_ecef, p_out in zip(xs_ecef, nxt):
                         err = float(np.linalg.norm(self.geo.lla2xyz(p_out) - x_ecef[:3]))
-                        self.max_geo_err = max(self.max_geo_err, err / float(np.linalg.norm(x_ecef[:3])))
+                        self.max_geo_err = max(self.max_geo_err, err / max(1.0, float(np.linalg.norm(x_ecef[:3]))))
                         if err > max(TOL_POS_ABS, TOL_GEO_REL * float(np.linalg.norm(x_ecef[:3]))) or abs(p_out[0]) > math.pi / 2 + 1e-15:
                             fails.append(("ellipsoid", fn, {"step": k, "err_km": err, "lla": p_out.tolist()}))
                 if e["dst"] == "LLA":
@@ -456,6 +489,7 @@ class Walker:
                             if abs(d0 - d1) > (TOL_GEO_REL if geo else TOL_RIGID_REL) * scale + 1e-9:
                                 fails.append(("distance", fn, {"step": k, "err_km": abs(d0 - d1), "pair": [i, j]}))
                     last_cart = pos
+        self.where = "walk"
         end_canon = [self.canon(frame, p) for p in cur]
         for s0, s1 in zip(start_canon, end_canon):
             ep = float(np.linalg.norm(s0[:3] - s1[:3]))
@@ -569,7 +603,10 @@ def replay_walks(ctx: Ctx, res, V: Viol, rng: random.Random) -> None:
                     continue
             idx = [pi, (pi + 1) % len(native), (pi + 37) % len(native)]
             group = [native[i] for i in idx]
-            status, fails = wk.run(w, c, group)
+            try:
+                status, fails = wk.run(w, c, group)
+            except Exception as ex:  # noqa: BLE001 - a value returned by the real code broke the evaluation of the case
+                status, fails = "ok", [("exception", wk.where if wk.where != "walk" else w["walk"][-1], {"error": repr(ex)})]
             n_run += 1
             case_key = ("walk", tuple(w["walk"]), pi, when.isoformat(), si, ri)
             if status == "singular":
@@ -596,7 +633,8 @@ def replay_walks(ctx: Ctx, res, V: Viol, rng: random.Random) -> None:
                     "velnorm": "rigid conversion changes the length of the velocity vector",
                     "distance": "pairwise distances of the constellation change",
                     "nonfinite": "conversion returns a non-finite value away from any angle singularity",
-                    "exception": "conversion raises away from any angle singularity"}[kind]
+                    "absurd": "conversion returns a position more than 100 times larger than anything in the problem",
+                    "exception": "conversion raises, or returns a value the case cannot be evaluated with, away from any angle singularity"}[kind]
             V.add(f"{kind}:{where}", f"{where}: {what}", rp)
     # closed-walk failures: name the most suspicious conversion first (spectrum-based: Ochiai score over the functions a
     # walk calls directly or indirectly, FrameGraph!Uses), then explain the remaining failing walks the same way
@@ -674,6 +712,12 @@ def measure_transitions(ctx: Ctx, rng: random.Random, V: Viol | None = None):
             V.add("eci2ecef-raises-inside-eop-span", f"eci2ecef raises {type(ex).__name__} at {t0.isoformat()} (+1 s), inside the span of the bundled table",
                   {"part": "clock", "t0": t0.isoformat(), "error": repr(ex)})
             return None
+        if not math.isfinite(dl):
+            if V is None:
+                raise tlc.MachineryError(f"non-finite longitude at {t0.isoformat()}")
+            V.add("eci2ecef-nonfinite", f"eci2ecef returns a non-finite Earth-fixed position at {t0.isoformat()} (+{t1 - t0})",
+                  {"part": "clock", "t0": t0.isoformat()})
+            return None
         d0, d1 = t0.date(), t1.date()
         s = t0.hour * 3600 + t0.minute * 60 + t0.second
         dut = (tab[d1][0] - tab[d0][0]) * 10            # units of 1e-8 s
@@ -730,16 +774,21 @@ def check_clock(ctx: Ctx, res, recs, V: Viol, rng: random.Random) -> None:
         if st["nrec"] != len(recs[n]):
             raise tlc.MachineryError(f"EarthClock read {st['nrec']} records for day {n}, driver wrote {len(recs[n])}")
         # exact oracle for the day-of-year helper (00:00:00), and its fraction at a random time
-        got = dayOfYear(st["y"], st["m"], st["d"], 0, 0, 0)
         ctx.case(("doy", st["y"], st["m"], st["d"]), nontrivial=True, sample={"doy_case": st} if n == 789 else None)
-        if got != st["doy"]:
-            V.add("dayOfYear-wrong", f"dayOfYear({st['y']},{st['m']},{st['d']},0,0,0) = {got}, calendar says {st['doy']}",
-                  {"part": "clock", "date": [st["y"], st["m"], st["d"]], "got": float(got), "expected": st["doy"]})
         h, mi, s = rng.randrange(24), rng.randrange(60), rng.randrange(60) + rng.choice((0.0, 0.5))
-        got = dayOfYear(st["y"], st["m"], st["d"], h, mi, s)
-        if abs(got - st["doy"] - (h * 3600 + mi * 60 + s) / 86400.0) > 1e-10:
+        try:
+            got = float(dayOfYear(st["y"], st["m"], st["d"], 0, 0, 0))
+            gotf = float(dayOfYear(st["y"], st["m"], st["d"], h, mi, s))
+        except Exception as ex:  # noqa: BLE001
+            V.add("dayOfYear-raises", f"dayOfYear raises {type(ex).__name__} for {st['y']}-{st['m']}-{st['d']}",
+                  {"part": "clock", "date": [st["y"], st["m"], st["d"], h, mi, s], "error": repr(ex)})
+            got = gotf = None
+        if got is not None and got != st["doy"]:
+            V.add("dayOfYear-wrong", f"dayOfYear({st['y']},{st['m']},{st['d']},0,0,0) = {got}, calendar says {st['doy']}",
+                  {"part": "clock", "date": [st["y"], st["m"], st["d"]], "got": got, "expected": st["doy"]})
+        if gotf is not None and not abs(gotf - st["doy"] - (h * 3600 + mi * 60 + s) / 86400.0) <= 1e-10:
             V.add("dayOfYear-fraction-wrong", "dayOfYear fraction is not seconds-of-day / 86400",
-                  {"part": "clock", "date": [st["y"], st["m"], st["d"], h, mi, s], "got": float(got)})
+                  {"part": "clock", "date": [st["y"], st["m"], st["d"], h, mi, s], "got": gotf})
         for r in recs[n]:
             ks = st["kinds"] if r["s"] == 86399 else (["minute"] if r["s"] % 60 == 59 else ["second"]) + (["hour"] if r["s"] % 3600 == 3599 else [])
             if r["h"]:
@@ -813,7 +862,7 @@ def check_velocity_derivative(ctx: Ctx, V: Viol, rng: random.Random) -> None:
                   {"part": "deriv", "date": t.isoformat(), "error": repr(ex)})
             continue
         err = float(np.linalg.norm(num - got))
-        if err > TOL_DERIV:
+        if not err <= TOL_DERIV:
             V.add("ecef-velocity-not-derivative", f"eci2ecef velocity differs from d/dt of the Earth-fixed position by {err:.3e} km/s",
                   {"part": "deriv", "x_eci": x.tolist(), "date": t.isoformat(), "got": got.tolist(), "numeric": num.tolist()})
     ctx.traces_validated += n
